@@ -378,11 +378,13 @@ CHECKS["C16"] = {
              "listener, registering a closed route again, cancelling Run's context, base Accept failing, a connection that the base Accept is still returning when Run is stopped), each followed by quiescence; the accepting side reads with large or with 1/2/3/5-byte buffers, at once or only after every connection of the history has passed the multiplexer; optionally the goroutine that unregisters a closed route is held in front of the unregistration until a release event (while it is held, a connection for that prefix may be closed or fall through to the default). Oracle: every connection the base listener handed out is returned by exactly one Accept - the route registered for its prefix with the prefix consumed, "
              "otherwise the default listener with the byte stream identical from byte 0 - or is closed, never both, never twice; a connection that arrived while an Accept was pending on its listener is delivered, not closed; after Run returned no Accept stays pending. "
              "header: 1..3 goroutines writing 0..3 chunks each through a HeaderConn over a recording connection whose first or second underlying write can be held until everybody else is blocked; the wire must be the header once, first, followed by every payload byte exactly once, and each Write must return its own length. "
-             "Non-trivial: a connection was delivered with routes registered or with the prefix split across writes (mux); >= 2 writes (header)."),
+             "Non-trivial: a connection was delivered with routes registered or with the prefix split across writes (mux); >= 2 writes (header). " 
+             "dial: the three documented ways of dialing with a header (HeaderDialer.Dial, HeaderDialer.DialContext, DialWithHeader) over a unix socket in a scratch directory, 0..3 writes of 0/1/8/100 bytes: the peer reads the header once, first, then the payload.""),
     "assumptions": ["events are sequenced with quiescence between them, so the set of live routes at the moment a connection arrives is known to the oracle; orders inside one event's burst are left to the Go scheduler"],
     "subs": [
         {"test": "TestC16Mux", "prop": "C16/mux", "quick": 20000, "thorough": 800000, "shards_quick": 16, "shards_thorough": 16},
         {"test": "TestC16Header", "prop": "C16/header", "quick": 20000, "thorough": 400000, "shards_quick": 8, "shards_thorough": 16},
+        {"test": "TestC16Dial", "prop": "C16/dial", "quick": 2000, "thorough": 40000, "shards_quick": 4, "shards_thorough": 8},
     ],
     "floors": {"C16/mux": {"delivered": 0.152, "prefix_split_across_writes": 0.1, "routes_registered": 0.3}, "C16/header": {"concurrent_writers": 0.223, "first_write_parked": 0.246}},
 }
